@@ -190,6 +190,7 @@ func registerVerifExternals(sh *Shared) {
 
 	registerStdStubs(sh)
 	registerSchedStubs(sh)
+	registerCutStubs(sh)
 }
 
 // ---------------------------------------------------------------------
